@@ -422,9 +422,17 @@ impl Execute for ast::Pipeline {
         // pipelines, etc.).
         if !result.is_success() && !params.suppress_errexit && !self.bang && is_errexit_point {
             if shell.traps().handles(crate::traps::TrapSignal::Err) {
-                shell
+                let trap_result = shell
                     .invoke_trap_handler(crate::traps::TrapSignal::Err, &params)
                     .await?;
+
+                // An `exit` executed by the handler ends the shell.
+                if matches!(
+                    trap_result.next_control_flow,
+                    crate::ExecutionControlFlow::ExitShell
+                ) {
+                    return Ok(trap_result);
+                }
             }
         }
 
